@@ -311,6 +311,23 @@ def _safe_grid(spec):
         return {"fails": [("exception", f"exception {type(e).__name__}: {str(e)[:200]} | {traceback.format_exc()[-300:]}")], "n": 0}
 
 
+def _safe_grid_seq(specs):
+    """several writers one after the other in ONE process (same grid strings, other factor / position mode): state left over by an
+    earlier writer must not leak into the files of a later one"""
+    return [_safe_grid(s) for s in specs]
+
+
+def grid_sequences(tier, seed):
+    rng = np.random.default_rng([seed, 20, 7])
+    seqs = []
+    for _ in range(2 if tier == "quick" else 12):
+        b, o, t = str(rng.choice([x for x in B_NAMES if x not in ("1",)])), str(rng.choice(O_NAMES)), str(rng.choice(T_NAMES))
+        order = [(1, False), (2, False), (2, True), (1, True), (3, False)]
+        rng.shuffle(order)
+        seqs.append([{"kind": "grid", "grid": [b, o, t], "factor": int(f), "cartesian": bool(c), "in_sequence": True} for f, c in order[:4]])
+    return seqs
+
+
 def grid_specs(tier, seed):
     rng = np.random.default_rng([seed, 20])
     full = [{"kind": "grid", "grid": [b, o, t], "factor": f, "cartesian": c}
@@ -331,8 +348,19 @@ def _execute(gspecs, n_files, n_extreme, seed, parent):
     chunk = 25
     jobs = [([seed, 20, 1, i], "gromacs", min(chunk, n_files - i * chunk), parent) for i in range((n_files + chunk - 1) // chunk)]
     jobs += [([seed, 20, 2, i], "extreme", min(chunk, n_extreme - i * chunk), parent) for i in range((n_extreme + chunk - 1) // chunk)]
+    n_single = len([g for g in gspecs if not g.get("in_sequence")])
+    seqs, cur = [], []
+    for g in gspecs[n_single:]:
+        if cur and cur[-1]["grid"] != g["grid"]:
+            seqs.append(cur)
+            cur = []
+        cur.append(g)
+    if cur:
+        seqs.append(cur)
     with ProcessPoolExecutor(max_workers=16) as ex:
-        gout = list(ex.map(_safe_grid, [dict(g, tmp_parent=parent) for g in gspecs], chunksize=1))
+        gout = list(ex.map(_safe_grid, [dict(g, tmp_parent=parent) for g in gspecs[:n_single]], chunksize=1))
+        for outs in ex.map(_safe_grid_seq, [[dict(g, tmp_parent=parent) for g in sq] for sq in seqs], chunksize=1):
+            gout.extend(outs)
     crashed_chunks = []
     try:
         with ProcessPoolExecutor(max_workers=16) as ex:
@@ -352,11 +380,12 @@ def _execute(gspecs, n_files, n_extreme, seed, parent):
 def run(tier, seed):
     n_files = 300 if tier == "quick" else 5000
     n_extreme = 60 if tier == "quick" else 600
-    gspecs = grid_specs(tier, seed)
+    gspecs = grid_specs(tier, seed) + [g for sq in grid_sequences(tier, seed) for g in sq]
     res = Result("C20",
                  rule="(a) GridWriter.save_* into a temp dir, GridReader.load_*, compared with fresh FullGrid getter results: grids "
                       "n_b in {1,2,3,4,5,8} (default/cube4D/randomQ) x n_o in {4,7} (default/ico/cube3D/randomS) x 2 and 3 radii x both "
-                      "position modes x factor {1,2}. (b) generated xvg files: 0..13 '#' lines, then '@' lines (GROMACS' standard ten or a "
+                      "position modes x factor {1,2}; plus sequences of four writers in one process for the same grid strings with other factor / "
+                      "position mode (each compared with its own fresh getters). (b) generated xvg files: 0..13 '#' lines, then '@' lines (GROMACS' standard ten or a "
                       "random subset, extra '@' lines, padded to >= 13 header lines in total, 25 % with up to 11 more), 1..10 distinct "
                       "legends `@ s<i> legend \"...\"` (GROMACS names and random ASCII texts with spaces/brackets/dots/#/@, no double "
                       "quote, non-blank) placed last (60 %), interleaved (30 %) or first (10 %), 0..50 data rows with space/tab "
